@@ -165,9 +165,9 @@ func c20(c *Ctx) {
 	// ---------------------------------------------------------------- nonce
 	nNonce := 0
 	for _, f := range p.SortedFuncs(core.Product) {
-		if !c20Producer.MatchString(f.Name()) && f.Name() != "EncryptSegment" && f.Name() != "EncryptSegmentWithDst" {
-			continue
-		}
+		// producing entry points, and any other function that itself hands a nonce to the
+		// stdlib (a shared helper such as sealWithRandomNonce)
+		isProducer := c20Producer.MatchString(f.Name()) || f.Name() == "EncryptSegment" || f.Name() == "EncryptSegmentWithDst"
 		if f.Synthetic != "" {
 			continue
 		}
@@ -181,11 +181,16 @@ func c20(c *Ctx) {
 			cc := call.Common()
 			n := guard.CalleeName(cc)
 			var idxs []int
+			if !isProducer && len(fills) == 0 {
+				return // a helper that draws nothing itself: its nonce is its callers' obligation
+			}
 			switch {
 			case n == "(crypto/cipher.AEAD).Seal":
 				idxs = []int{1}
 			case n == "crypto/cipher.NewCTR":
 				idxs = []int{1}
+			case !isProducer:
+				return
 			default:
 				if callee := cc.StaticCallee(); callee != nil && core.FuncClass(callee) == core.Product {
 					for i, prm := range callee.Params {
@@ -197,6 +202,9 @@ func c20(c *Ctx) {
 			}
 			for _, i := range idxs {
 				arg := cc.Args[i]
+				if _, isPrm := guard.Strip(arg).(*ssa.Parameter); isPrm && !isProducer {
+					continue // a helper given its nonce: decided at its callers (nonce-named parameters)
+				}
 				nNonce++
 				key := fmt.Sprintf("C20.nonce/%s/%s arg%d", core.FuncID(f), shortName(n), i)
 				why, ok := nonceOK(c, a, cx, f, ins, arg, fills)
